@@ -279,36 +279,50 @@ def adjacency (c : CL) := c.adjacencyWith scan
 
 end CL
 
+/-- `_check_coord(coord)` / `_check_coord(coord[selection])` (numpy raises `IndexError` for a
+boolean mask of the wrong length). -/
+def selError (coords : List V3) (sel : Option (List Bool)) : Option Err :=
+  match sel with
+  | none => if coords.isEmpty then some .valueError else none
+  | some s => if s.length ≠ coords.length then some .indexError
+              else if s.any id then none else some .valueError
+
+def boxOk (box : Option V3) : Bool :=
+  match box with
+  | some b => decide (0 < b.x ∧ 0 < b.y ∧ 0 < b.z)
+  | none => true
+
+/-- The coordinates `__cinit__` bins: the input, or moved inside the box and replicated. -/
+def allCoords (coords : List V3) (box : Option V3) : List V3 :=
+  match box with
+  | some b => replicate b (coords.map (wrapV b))
+  | none => coords
+
+/-- `_selection`, or "everything" when no selection was given. -/
+def selMask (sel : Option (List Bool)) (n : Nat) : List Bool :=
+  match sel with
+  | some s => s
+  | none => List.replicate n true
+
+def build (coords : List V3) (cs : Rat) (box : Option V3) (sel : Option (List Bool)) (p : V3) (ps : List V3) : CL :=
+  { coord := allCoords coords box, n := coords.length,
+    sel := selMask sel coords.length,
+    cs := cs,
+    mn := ⟨lmin p.x (ps.map (·.x)), lmin p.y (ps.map (·.y)), lmin p.z (ps.map (·.z))⟩,
+    mx := ⟨lmax p.x (ps.map (·.x)), lmax p.y (ps.map (·.y)), lmax p.z (ps.map (·.z))⟩,
+    box := box }
+
 /-- `CellList.__cinit__(coords, cell_size, periodic, box, selection)`.
-`box = some (Lx,Ly,Lz)`: periodic with an orthorhombic box (lengths > 0, else not modelled). -/
+`box = some (Lx,Ly,Lz)`: periodic with an orthorhombic box (lengths > 0, else not modelled: `none`). -/
 def mk (coords : List V3) (cs : Rat) (box : Option V3) (sel : Option (List Bool)) :
     Option (Except Err CL) :=
-  -- _check_coord(coord) / _check_coord(coord[selection])
-  let selErr : Option Err :=
-    match sel with
-    | none => if coords.isEmpty then some .valueError else none
-    | some s => if s.length ≠ coords.length then some .indexError
-                else if s.any id then none else some .valueError
-  match selErr with
+  match selError coords sel with
   | some e => some (.error e)
   | none =>
-    let boxOk := match box with
-      | some b => decide (0 < b.x ∧ 0 < b.y ∧ 0 < b.z)
-      | none => true
-    if !boxOk then none else
+    if boxOk box = false then none else
     if cs ≤ 0 then some (.error .valueError) else
-    let all := match box with
-      | some b => replicate b (coords.map (wrapV b))
-      | none => coords
-    match all with
+    match allCoords coords box with
     | [] => some (.error .valueError)
-    | p :: ps =>
-      some (.ok {
-        coord := all, n := coords.length,
-        sel := (match sel with | some s => s | none => List.replicate coords.length true),
-        cs := cs,
-        mn := ⟨lmin p.x (ps.map (·.x)), lmin p.y (ps.map (·.y)), lmin p.z (ps.map (·.z))⟩,
-        mx := ⟨lmax p.x (ps.map (·.x)), lmax p.y (ps.map (·.y)), lmax p.z (ps.map (·.z))⟩,
-        box := box })
+    | p :: ps => some (.ok (build coords cs box sel p ps))
 
 end BiotiteModel.C14
